@@ -853,30 +853,45 @@ def heap_walk(res, fut, max_viol=6):
     steps = nviol = 0
     names = set()
 
+    # condensed graph for routing: one call per (state, successor state), deterministic calls preferred
+    hop = {}
+    for s_, cs in calls.items():
+        h = hop.setdefault(s_, {})
+        for c, ds in cs.items():
+            for (_, d) in ds:
+                if d != s_ and (d not in h or (len(ds) == 1 and len(calls[s_][h[d]]) > 1)):
+                    h[d] = c
+    plan = []                                          # calls still to take towards the next state with work
+
     def route(frm):
-        """first call of a shortest path from frm to a state with an untaken call"""
+        """calls of a shortest path from frm to a state with an untaken call"""
         seen, q = {frm: None}, [frm]
         for x in q:
             if todo.get(x):
-                while seen[x][0] != frm:
-                    x = seen[x][0]
-                return seen[x][1]
-            for c, ds in calls.get(x, {}).items():
-                for (_, d) in ds:
-                    if d not in seen:
-                        seen[d] = (x, c)
-                        q.append(d)
+                path = []
+                while x != frm:
+                    x, c = seen[x]
+                    path.append((x, c))
+                return path[::-1]
+            for d, c in hop.get(x, {}).items():
+                if d not in seen:
+                    seen[d] = (x, c)
+                    q.append(d)
         return None
 
     while ntodo:
         if todo.get(cur):
             c = min(todo[cur])
+            plan = []
         else:
-            c = route(cur)
-            if c is None:                             # the untaken calls are unreachable from here: jump
+            if not plan or plan[0][0] != cur:
+                plan = route(cur)
+            if not plan:                              # the untaken calls are unreachable from here: jump
                 cur = next(s_ for s_ in todo if todo[s_])
                 real.reset(heaps[cur])
+                plan = []
                 continue
+            c = plan.pop(0)[1]
         if c in todo.get(cur, ()):
             todo[cur].discard(c)
             ntodo -= 1
